@@ -131,6 +131,25 @@ def run_C15(ctx):
             nontrivial=lambda c: c.get("transient_ops", 0) >= 1, oracle_prefix="C15")
 
 
+def run_C16(ctx):
+    ref_run(ctx, "determinism", ["determinism", "--n", n_cases(ctx, 300, 6000)],
+            "one tracer history / one transaction replayed 20 (thorough 200) resp. 4 times in fresh instances interleaved with unrelated executions; every result and every query answer serialised in returned order must be identical; a fresh instance sees nothing",
+            oracle_prefix="C16")
+    corr_run(ctx, "tracerhist", ["tracerhist", "--n", n_cases(ctx, 1000, 50000)],
+             "returned order of ChildrenIndices / IndicesOfChanges / call children vs the model's specified order",
+             nontrivial=lambda c: c["registrations"] >= 3, has_oracle=True)
+
+
+def run_C18(ctx):
+    ref_run(ctx, "diffref", ["diffref", "--mode", "events", "--n", n_cases(ctx, 400, 40000)],
+            "sequence and arguments of every debug-tracer callback (start/end, enter/exit, per-step state incl. stack digest, memory size, return data, faults) vs go-ethereum v1.12.0",
+            nontrivial=lambda c: c.get("steps", 0) >= 5)
+    ref_run(ctx, "tracerpair", ["tracerpair", "--n", n_cases(ctx, 1200, 60000)],
+            "paired tracers on both implementations: struct logger (6 configs), access-list, prestate (+diff mode), 4byte, call (only-top-call, with-log), flat call (parity errors, include precompiles), mux, noop; GetResult compared",
+            nontrivial=lambda c: c.get("output_bytes", 0) > 2, oracle_prefix="C18")
+    exec_run(ctx, "C18", 2, quick=500, thorough=30000)
+
+
 def run_C20(ctx):
     ref_run(ctx, "workscan", ["workscan"], "state reads (counting StateDB) and allocated bytes per journal instruction / Artela precompile call with length fields 2^5..2^16 (2^22 thorough)",
             oracle_prefix="C20")
@@ -332,5 +351,34 @@ PROPS.update({
                 "EIP-1153: generated programs (4 contracts, calls of all kinds, reverts, static frames) with extra TSTORE/TLOAD traffic; non-trivial = at least one transient-storage instruction executed",
         "modelled": ["vm/memory.go Memory.Copy", "vm/memory_table.go memoryMcopy", "vm/gas_table.go memoryGasCost/memoryCopierGas", "vm/eips.go opMcopy/enable5656", "vm/interpreter.go memory expansion"],
         "assumptions": ["StateDB.Prepare resets transient storage at transaction start (go-ethereum code)"],
+    },
+})
+
+PROPS.update({
+    "C16": {
+        "run": run_C16,
+        "technique": "Coq theorems (every list-valued answer has a specified order depending only on what was recorded) + model correspondence comparing returned order + repetition runs in fresh instances",
+        "level_text": "Theorems in Coq: the reported child indices are bytewise sorted and hence a function of the set of registered keys (two histories registering the same keys in any order give identical lists), call children are in entry order; "
+                      "the model itself is a function, so equal inputs give equal results. PARTIAL by nature: Go's randomised map iteration and shared mutable package-level values are runtime behaviour; they are detected by comparing returned order against the model "
+                      "and by replaying the same history/transaction in fresh instances (20-200 times, interleaved with unrelated executions) and comparing complete serialisations.",
+        "level_note": COMMON_NOTE + "Not modelled: Go map iteration order, allocator, shared package-level uint256 constants (their in-place mutation would show as a difference between the first and later replays in one process).",
+        "rule": "2/3 tracer histories (10..60 operations, several children per parent) replayed R times, 1/3 whole transactions (exec scenarios with journal instructions and Aspects) replayed 4 times; non-trivial = any; distinct = (kind, seed)",
+        "modelled": ["vm/tracer.go query functions"],
+        "assumptions": [],
+    },
+})
+
+PROPS.update({
+    "C18": {
+        "run": run_C18,
+        "technique": "Coq theorems (tracer packages and emitting code digest-identical to go-ethereum v1.12.0; start/end and enter/exit balanced for every Aspect behaviour by mutual induction) + reference comparison of callback streams and of paired tracer outputs",
+        "level_text": "Theorems: over regenerated digests every declaration of tracers, tracers/logger, tracers/native (and of vm/core) is identical to upstream's or a reviewed Aspect addition; in the frame model the events any entry point adds are a well-nested "
+                      "word of start/end and enter/exit for every instruction semantics, Aspect oracle and failure position. Equality of the callback sequence and arguments with go-ethereum v1.12.0 is validated by recording both streams on generated programs "
+                      "(all forks, entry points), equality of the inherited tracers by running them pairwise and comparing GetResult; the model's event stream is compared with the implementation's when join points abort calls.",
+        "level_note": COMMON_NOTE + REF_NOTE + "Access-list tracer outputs are compared as sorted sets (both implementations range over a map, inherited). Invalid-opcode names are compared by class (opcode bytes were renumbered).",
+        "rule": "diffref programs (see C01) with the full callback stream compared; tracer pairs: generated programs x 8 forks x 18 tracer configurations x entry points call/create/create2 x gas limits; exec scenarios with failing join points (events mask); "
+                "non-trivial = at least 5 steps resp. non-empty tracer output; distinct = (fork, entry, codes, input, tracer, config)",
+        "modelled": ["vm/evm.go event emission (dbg_open/dbg_close, Enter/Exit of the non-recording call kinds)"],
+        "assumptions": ["as C01"],
     },
 })
